@@ -205,7 +205,7 @@ func matrix() []cell {
 
 func TestMatrix(t *testing.T) {
 	cells := matrix()
-	per := ev.Pick(25, 150)
+	per := ev.Pick(25, 600)
 	n := 0
 	for i, c := range cells {
 		if i%ev.S.NShards != ev.S.Shard {
@@ -272,7 +272,7 @@ func genType(rt *rapid.T, depth int) reflect.Type {
 }
 
 func TestRandomTypes(t *testing.T) {
-	ev.Check(t, "random-types", ev.N(60000, 1500000), func(rt *rapid.T) {
+	ev.Check(t, "random-types", ev.N(60000, 12000000), func(rt *rapid.T) {
 		typ := genType(rt, ev.Pick(3, 4))
 		v := uni.Gen(rt, typ, 4, uni.Opts{})
 		simple := rapid.Bool().Draw(rt, "simple")
